@@ -85,6 +85,10 @@ def parse_tlc_log(text):
         out["states"] = int(m.group(2))
     if "Model checking completed. No error has been found." in text:
         out["ok"] = True
+    m = re.search(r"The number of states generated: (\d+)", text)
+    if m and "Simulation using seed" in text and "Error:" not in text:
+        out["ok"] = True
+        out["states"] = out["transitions"] = int(m.group(1))
     m = re.search(r"Error: Invariant (\S+) is violated", text)
     if m:
         out["violated"] = m.group(1)
@@ -97,7 +101,7 @@ def parse_tlc_log(text):
     return out
 
 
-def run_tlc_replay(run, name, module, cfg_kwargs, prop, workers=4, threads=8, timeout=3000, extra_rv=()):
+def run_tlc_replay(run, name, module, cfg_kwargs, prop, workers=4, threads=8, timeout=3000, extra_rv=(), tlc_args=(), env_extra=None):
     """TLC model checking of `module` with Emit piped into `rv replay`.  Returns (tlc_result, rv_summary)."""
     d = run.dir
     cfg = os.path.join(d, name + ".cfg")
@@ -105,14 +109,16 @@ def run_tlc_replay(run, name, module, cfg_kwargs, prop, workers=4, threads=8, ti
     meta = os.path.join(d, "meta-" + name)
     tlclog = os.path.join(d, name + ".tlc.log")
     rvout = os.path.join(d, name + ".rv.out")
-    cmd_tlc = ["timeout", str(timeout), "tlc", "-workers", str(workers), "-noGenerateSpecTE", "-metadir", meta,
+    cmd_tlc = ["timeout", str(timeout), "tlc", "-workers", str(workers)] + list(tlc_args) + ["-noGenerateSpecTE", "-metadir", meta,
                "-cleanup", "-config", cfg, module]
     cmd_rv = [RV, "replay", "--property", prop, "--replay-dir", run.replay_dir, "--tlc-log", tlclog,
               "--threads", str(threads)] + list(extra_rv)
     t0 = time.time()
     with open(rvout, "w") as out:
         p1 = subprocess.Popen(cmd_tlc, cwd=SPEC, env=tlc_env(), stdout=subprocess.PIPE, stderr=subprocess.DEVNULL)
-        p2 = subprocess.Popen(cmd_rv, stdin=p1.stdout, stdout=out, stderr=subprocess.PIPE, env=rv_env())
+        env2 = rv_env()
+        env2.update(env_extra or {})
+        p2 = subprocess.Popen(cmd_rv, stdin=p1.stdout, stdout=out, stderr=subprocess.PIPE, env=env2)
         p1.stdout.close()
         _, err = p2.communicate()
         p1.wait()
